@@ -262,6 +262,17 @@ def IsEntry (F : Bytes) (ifd : Ifd) (d cnt : Nat) (x : Tag) : Prop :=
 def AnyEntry (F : Bytes) (ifd : Ifd) (d cnt : Nat) (x : Tag) : Prop :=
   ∃ k, k < cnt ∧ entryAt ifd ((F.drop (d + 2)).take (cnt * 12)) k = .ok (some x)
 
+/-- the pending tag readNextIfdTag queues for a second top-level directory (IFD1) at nx -/
+def stubOf (ifd : Ifd) (nx : Nat) : Tag :=
+  { id := 0x014a, typ := tIfd, count := 4, off := nx, ifd := ifd0, idx := (ifd.idx + 1) % 256, order := ifd.order }
+
+/-- such a tag: the work loop seeks to it and reads nothing -/
+def IsStub (t : Tag) : Prop := t.typ = tIfd ∧ t.ifd = ifd0 ∧ t.id = 0x014a
+
+/-- x is the IFD1 pointer of the directory at d (the directory is IFD0 and its next-IFD field is not zero) -/
+def IsStubEntry (F : Bytes) (ifd : Ifd) (d cnt : Nat) (x : Tag) : Prop :=
+  ifd.typ = ifd0 ∧ ∃ nx, nx ≠ 0 ∧ u32 ifd.order ((F.drop (d + 2 + 12 * cnt)).take 4) = .ok nx ∧ x = stubOf ifd nx
+
 /-- what reading a directory at d needs, with extents given by `sz` (entries may be pointers) -/
 structure DirOK (F : Bytes) (ifd : Ifd) (d cnt exl lim : Nat) (sz : Tag → Nat) : Prop where
   inFile : d + 2 + 12 * cnt + 4 ≤ F.length
@@ -273,11 +284,13 @@ structure DirOK (F : Bytes) (ifd : Ifd) (d cnt exl lim : Nat) (sz : Tag → Nat)
     (t.isEmbedded = true → ¬ Reads t) ∧ (t.isEmbedded = false → d + 2 + 12 * cnt + 4 ≤ t.off ∧ 0 < sz t)
   disj : ∀ k k' t t', k < cnt → k' < cnt → k ≠ k' → entryAt ifd ((F.drop (d + 2)).take (cnt * 12)) k = .ok (some t) →
     entryAt ifd ((F.drop (d + 2)).take (cnt * 12)) k' = .ok (some t') → t.isEmbedded = false → t'.isEmbedded = false → DisjS sz t t'
-  next : ifd.typ = ifd0 → u32 ifd.order ((F.drop (d + 2 + 12 * cnt)).take 4) = .ok 0
+  next : ifd.typ = ifd0 → ∃ nx, u32 ifd.order ((F.drop (d + 2 + 12 * cnt)).take 4) = .ok nx ∧
+    (nx = 0 ∨ (d + 2 + 12 * cnt + 4 ≤ nx ∧ 0 < sz (stubOf ifd nx) ∧
+      ∀ k t, k < cnt → entryAt ifd ((F.drop (d + 2)).take (cnt * 12)) k = .ok (some t) → t.isEmbedded = false → DisjS sz (stubOf ifd nx) t))
 
 theorem FlatDir.dirOK {F : Bytes} {ifd : Ifd} {d cnt exl lim : Nat} (h : FlatDir F ifd d cnt exl lim) (sz : Tag → Nat)
     (hsz : ∀ t : Tag, t.typ ≠ tIfd → sz t = t.size) : DirOK F ifd d cnt exl lim sz := by
-  refine ⟨h.inFile, h.inExif, h.count, h.small, h.window, ?_, ?_, h.next⟩
+  refine ⟨h.inFile, h.inExif, h.count, h.small, h.window, ?_, ?_, fun h0 => ⟨0, h.next h0, Or.inl rfl⟩⟩
   · intro k t hk e
     have g := h.good k t hk e
     exact ⟨g.2.2.1, fun ho => ⟨(g.2.2.2 ho).1, by rw [hsz t g.1]; exact size_pos_of_outofline t g.1 ho⟩⟩
@@ -290,12 +303,13 @@ theorem FlatDir.dirOK {F : Bytes} {ifd : Ifd} {d cnt exl lim : Nat} (h : FlatDir
 theorem readIfdHeader_gen {F : Bytes} (tb : Tables) (ifd : Ifd) (r r1 : R) (e1 : Option ErrKind) (cnt : Nat) (sz : Tag → Nat)
     (Old : Tag → Prop)
     (hc : Coh F r) (he : Exact tb ex0 F r) (hpos : r.pos = 0) (hlay : LayS sz r.tags) (hmem : ∀ x ∈ r.tags, Old x)
-    (hcap : ∀ l : List Tag, LayS sz l → (∀ x ∈ l, Old x ∨ IsEntry F ifd r.po cnt x) → l.length ≤ 83)
+    (hcap : ∀ l : List Tag, LayS sz l → (∀ x ∈ l, Old x ∨ IsEntry F ifd r.po cnt x ∨ IsStubEntry F ifd r.po cnt x) → l.length ≤ 83)
     (hd : DirOK F ifd r.po cnt r.exifLength (readLimit r) sz)
     (hold : ∀ x, Old x → 0 < sz x ∧ ∀ t, IsEntry F ifd r.po cnt t → DisjS sz t x)
+    (hstubOld : ifd.typ = ifd0 → ∀ x, ¬ Old x)
     (h : readIfdHeader tb r ifd = .ok (r1, e1)) :
     Coh F r1 ∧ Exact tb ex0 F r1 ∧ r1.po ≤ r.po + 2 + 12 * cnt + 4 ∧ r1.pos = 0 ∧ r1.exifLength = r.exifLength ∧ readLimit r1 = readLimit r ∧
-    LayS sz r1.tags ∧ (∀ x ∈ r1.tags, Old x ∨ IsEntry F ifd r.po cnt x) ∧ (∀ x ∈ r.tags, x ∈ r1.tags) ∧
+    LayS sz r1.tags ∧ (∀ x ∈ r1.tags, Old x ∨ IsEntry F ifd r.po cnt x ∨ IsStubEntry F ifd r.po cnt x) ∧ (∀ x ∈ r.tags, x ∈ r1.tags) ∧
     (∀ x ∈ r.parsed, x ∈ r1.parsed) ∧ (∀ x ∈ r1.parsed, x ∈ r.parsed ∨ AnyEntry F ifd r.po cnt x) ∧ e1 = none ∧
     (∀ x, IsEntry F ifd r.po cnt x → x ∈ r1.tags) := by
   have hF := hd.inFile
@@ -329,7 +343,7 @@ theorem readIfdHeader_gen {F : Bytes} (tb : Tables) (ifd : Ifd) (r r1 : R) (e1 :
   have hE3 : Exact tb ex0 F (fastRead (fastRead r 2).r (cnt * 12)).r := he.keep hk3
   have hgen := entriesLoop_gen (F := F) tb ifd _ (r.po + 2 + 12 * cnt + 4) sz Old cnt 0 _ r3 hc3 hE3 (by rw [hpo3]; omega)
     (by rw [hk3.pos]; exact hpos) (by rw [hk3.tags]; exact hlay) (by rw [hk3.tags]; exact fun x hx => Or.inl (hmem x hx))
-    (fun l hl hm => hcap l hl (fun x hx => by rcases hm x hx with ho | ⟨k, hk, e, o⟩; exact Or.inl ho; exact Or.inr ⟨k, by omega, e, o⟩))
+    (fun l hl hm => hcap l hl (fun x hx => by rcases hm x hx with ho | ⟨k, hk, e, o⟩; exact Or.inl ho; exact Or.inr (Or.inl ⟨k, by omega, e, o⟩)))
     (fun k t hk hdd => hd.good k t (by omega) hdd)
     (fun k k' t t' hk hk' => hd.disj k k' t t' (by omega) (by omega))
     (fun x hx => ⟨(hold x hx).1, fun k t hk e o => (hold x hx).2 t ⟨k, by omega, e, o⟩⟩) hloop
@@ -346,11 +360,11 @@ theorem readIfdHeader_gen {F : Bytes} (tb : Tables) (ifd : Ifd) (r r1 : R) (e1 :
     rcases hprov4 x hx with ho | ⟨k, hk, e⟩
     · exact Or.inl ho
     · exact Or.inr ⟨k, by omega, e⟩
-  have hmem5 : ∀ x ∈ r3.tags, Old x ∨ IsEntry F ifd r.po cnt x := by
+  have hmem5 : ∀ x ∈ r3.tags, Old x ∨ IsEntry F ifd r.po cnt x ∨ IsStubEntry F ifd r.po cnt x := by
     intro x hx
     rcases hmem4 x hx with ho | ⟨k, hk, e, o⟩
     · exact Or.inl ho
-    · exact Or.inr ⟨k, by omega, e, o⟩
+    · exact Or.inr (Or.inl ⟨k, by omega, e, o⟩)
   unfold Exif.readNextIfdTag at hnx
   split at hnx
   · dsimp only at hnx
@@ -361,19 +375,57 @@ theorem readIfdHeader_gen {F : Bytes} (tb : Tables) (ifd : Ifd) (r r1 : R) (e1 :
     dsimp only at hnx
     obtain ⟨nx, hnxv, hnx⟩ := bind_ok hnx
     rw [hr5.2.1, hpo4] at hnxv
-    have hno : ¬ (ifd.typ = ifd0 ∧ nx ≠ 0) := by
-      intro hh
-      have := hd.next hh.1
-      rw [this] at hnxv
-      simp only [Outcome.ok.injEq] at hnxv
-      exact hh.2 hnxv.symm
-    rw [if_neg hno] at hnx
-    simp only [Outcome.ok.injEq, Prod.mk.injEq] at hnx
-    rw [← hnx.1]
     have hl5 : readLimit (fastRead r3 4).r = readLimit r := by unfold readLimit at hlim4 ⊢; rw [hk5.buffered]; exact hlim4
-    refine ⟨hc5, he4.keep hk5, by rw [hr5.2.2, hpo4]; omega, by rw [hk5.pos]; exact hpos4,
-      by rw [hk5.exl]; exact hexl4, hl5, by rw [hk5.tags]; exact hlay4, by rw [hk5.tags]; exact hmem5, by rw [hk5.tags]; exact hsub4,
-      by rw [hk5.parsed]; exact hpar4, by rw [hk5.parsed]; exact hprov5, hnx.2.symm, by rw [hk5.tags]; exact hins5⟩
+    by_cases hno : ifd.typ = ifd0 ∧ nx ≠ 0
+    · -- IFD0 with a successor: the IFD1 pointer is queued
+      rw [if_pos hno] at hnx
+      simp only [Outcome.ok.injEq, Prod.mk.injEq] at hnx
+      have hnx1 : addTag (fastRead r3 4).r (stubOf ifd nx) = r1 := hnx.1
+      rw [← hnx1]
+      obtain ⟨nx', hnx', hcase⟩ := hd.next hno.1
+      rw [hnx'] at hnxv
+      simp only [Outcome.ok.injEq] at hnxv
+      subst hnxv
+      rcases hcase with h0 | ⟨hD, hszs, hdis⟩
+      · exact absurd h0 hno.2
+      · have hstub : IsStubEntry F ifd r.po cnt (stubOf ifd nx') := ⟨hno.1, nx', hno.2, hnx', rfl⟩
+        have hlay5 : LayS sz (fastRead r3 4).r.tags := by rw [hk5.tags]; exact hlay4
+        have hmem5' : ∀ x ∈ (fastRead r3 4).r.tags, Old x ∨ IsEntry F ifd r.po cnt x ∨ IsStubEntry F ifd r.po cnt x := by
+          rw [hk5.tags]; exact hmem5
+        have hlen84 : (fastRead r3 4).r.tags.length < tagMaxCount := by
+          have := hcap _ hlay5 hmem5'
+          unfold tagMaxCount; omega
+        have hd5 : ∀ x ∈ (fastRead r3 4).r.tags, DisjS sz (stubOf ifd nx') x ∧ 0 < sz x := by
+          intro x hx
+          rw [hk5.tags] at hx
+          rcases hmem4 x hx with ho | ⟨k, hk, e, o⟩
+          · exact absurd ho (hstubOld hno.1 x)
+          · exact ⟨hdis k x (by omega) e o, ((hd.good k x (by omega) e).2 o).2⟩
+        have ha := addTag_layS sz (fastRead r3 4).r (stubOf ifd nx') hlay5 (by rw [hr5.2.2, hpo4]; show _ ≤ nx'; omega) hlen84 hszs hd5
+        obtain ⟨hl6, htin6, hm6, hsub6, _, hs6⟩ := ha
+        have hkeep6 := addTag_keep (fastRead r3 4).r (stubOf ifd nx')
+        have hpo6 : (addTag (fastRead r3 4).r (stubOf ifd nx')).po = (fastRead r3 4).r.po := hs6.po
+        have hrest6 : (addTag (fastRead r3 4).r (stubOf ifd nx')).rest = (fastRead r3 4).r.rest := hs6.rest
+        have hexl6 : (addTag (fastRead r3 4).r (stubOf ifd nx')).exifLength = (fastRead r3 4).r.exifLength := hs6.exl
+        have hbuf6 : (addTag (fastRead r3 4).r (stubOf ifd nx')).buffered = (fastRead r3 4).r.buffered := hs6.buffered
+        have hpos6 : (addTag (fastRead r3 4).r (stubOf ifd nx')).pos = (fastRead r3 4).r.pos := hs6.pos
+        have hrd6 : (addTag (fastRead r3 4).r (stubOf ifd nx')).reads = (fastRead r3 4).r.reads := hs6.reads
+        refine ⟨⟨by rw [hrest6, hpo6]; exact hc5.rest, by rw [hpo6]; exact hc5.le, hc5.small⟩,
+          (he4.keep hk5).transfer hrd6 hkeep6.1 hkeep6.2, by rw [hpo6, hr5.2.2, hpo4]; omega, by rw [hpos6, hk5.pos]; exact hpos4,
+          by rw [hexl6, hk5.exl]; exact hexl4, by unfold readLimit at hl5 ⊢; rw [hbuf6]; exact hl5, hl6, ?_, ?_,
+          by rw [hkeep6.2, hk5.parsed]; exact hpar4, by rw [hkeep6.2, hk5.parsed]; exact hprov5, hnx.2.symm, ?_⟩
+        · intro x hx
+          rcases hm6 x hx with rfl | hx
+          · exact Or.inr (Or.inr hstub)
+          · exact hmem5' x hx
+        · intro x hx; exact hsub6 x (by rw [hk5.tags]; exact hsub4 x hx)
+        · intro x hx; exact hsub6 x (by rw [hk5.tags]; exact hins5 x hx)
+    · rw [if_neg hno] at hnx
+      simp only [Outcome.ok.injEq, Prod.mk.injEq] at hnx
+      rw [← hnx.1]
+      refine ⟨hc5, he4.keep hk5, by rw [hr5.2.2, hpo4]; omega, by rw [hk5.pos]; exact hpos4,
+        by rw [hk5.exl]; exact hexl4, hl5, by rw [hk5.tags]; exact hlay4, by rw [hk5.tags]; exact hmem5, by rw [hk5.tags]; exact hsub4,
+        by rw [hk5.parsed]; exact hpar4, by rw [hk5.parsed]; exact hprov5, hnx.2.symm, by rw [hk5.tags]; exact hins5⟩
   · simp only [Outcome.ok.injEq, Prod.mk.injEq] at hnx
     rw [← hnx.1]
     exact ⟨hc4, he4, by rw [hpo4]; omega, hpos4, hexl4, hlim4, hlay4, hmem5, hsub4, hpar4, hprov5, hnx.2.symm, hins5⟩
@@ -397,15 +449,17 @@ theorem extent_ptr (F : Bytes) (t : Tag) (h : t.typ = tIfd) : extent F t = 2 + 1
 /-- the layout: which tags belong to it (W), what is asked of them -/
 structure World (F : Bytes) (exl lim : Nat) (W : Tag → Prop) : Prop where
   ok : ∀ x, W x → (x.typ ≠ tIfd ∧ ¬(x.id = 0x014a ∧ x.ifd = ifd0) ∧ x.isEmbedded = false ∧ x.off + x.size ≤ F.length ∧
-      x.off + x.size ≤ exl ∧ x.size ≤ lim) ∨ (IsPtr x ∧ FlatDir F x.childIfd x.off (ptrCount F x) exl lim)
+      x.off + x.size ≤ exl ∧ x.size ≤ lim) ∨ (IsPtr x ∧ FlatDir F x.childIfd x.off (ptrCount F x) exl lim) ∨
+      (IsStub x ∧ x.off ≤ F.length ∧ x.off ≤ exl)
   disj : ∀ x y, W x → W y → x ≠ y → DisjS (extent F) x y
   child : ∀ p, W p → IsPtr p → ∀ c, IsEntry F p.childIfd p.off (ptrCount F p) c → W c
   uniq : ∀ p q, W p → W q → IsPtr p → IsPtr q → p.id = q.id → p = q
   cap : ∀ l : List Tag, LayS (extent F) l → (∀ x ∈ l, W x) → l.length ≤ 83
 
 theorem World.extent_pos {F : Bytes} {exl lim : Nat} {W : Tag → Prop} (w : World F exl lim W) (x : Tag) (hx : W x) : 0 < extent F x := by
-  rcases w.ok x hx with h | h
+  rcases w.ok x hx with h | h | h
   · rw [extent_value F x h.1]; exact size_pos_of_outofline x h.1 h.2.2.1
+  · rw [extent_ptr F x h.1.1]; omega
   · rw [extent_ptr F x h.1.1]; omega
 
 theorem entry_ifd (ifd : Ifd) (buf : Bytes) (k : Nat) (c : Tag) (h : entryAt ifd buf k = .ok (some c)) : c.ifd = ifd.typ := by
@@ -486,7 +540,7 @@ theorem ifdLoop_nested {F : Bytes} {exl lim : Nat} {W : Tag → Prop} (w : World
       (∀ x ∈ r.parsed, x ∈ r'.parsed) ∧
       (∀ x ∈ r.tags.drop r.pos, x.typ ≠ tIfd → x ∈ r'.parsed) ∧
       (∀ p ∈ r.tags.drop r.pos, IsPtr p → ∀ c, IsEntry F p.childIfd p.off (ptrCount F p) c → c ∈ r'.parsed) ∧
-      (∀ x ∈ r'.parsed, x ∈ r.parsed ∨ x ∈ r.tags.drop r.pos ∨
+      (∀ x ∈ r'.parsed, x ∈ r.parsed ∨ (x ∈ r.tags.drop r.pos ∧ x.typ ≠ tIfd) ∨
         ∃ p ∈ r.tags.drop r.pos, IsPtr p ∧ AnyEntry F p.childIfd p.off (ptrCount F p) x) := by
   intro f
   induction f with
@@ -507,7 +561,7 @@ theorem ifdLoop_nested {F : Bytes} {exl lim : Nat} {W : Tag → Prop} (w : World
       rw [List.pairwise_cons] at hlayQ
       have htW : W t := inv.inW t (by rw [hdrop]; simp)
       have htfwd : r.po ≤ t.off := inv.fwd t (by rw [hdrop]; simp)
-      rcases w.ok t htW with hv | hp
+      rcases w.ok t htW with hv | hp | hs
       · -- a value tag
         rw [if_neg hv.1, if_neg hv.2.1] at h
         obtain ⟨r1, h1, h⟩ := bind_ok h
@@ -551,8 +605,8 @@ theorem ifdLoop_nested {F : Bytes} {exl lim : Nat} {W : Tag → Prop} (w : World
           · have : x ∈ r.parsed ++ [t] := by rw [← hpar]; exact h1'
             rcases List.mem_append.mp this with h | h
             · exact Or.inl h
-            · simp only [List.mem_singleton] at h; rw [h]; exact Or.inr (Or.inl (by rw [hdrop]; simp))
-          · exact Or.inr (Or.inl (by rw [hdrop]; exact List.mem_cons_of_mem _ h2'))
+            · simp only [List.mem_singleton] at h; rw [h]; exact Or.inr (Or.inl ⟨by rw [hdrop]; simp, hv.1⟩)
+          · exact Or.inr (Or.inl ⟨by rw [hdrop]; exact List.mem_cons_of_mem _ h2'.1, h2'.2⟩)
           · exact Or.inr (Or.inr ⟨p, by rw [hdrop]; exact List.mem_cons_of_mem _ hp, hip, ha⟩)
       · -- a pointer to a flat directory
         obtain ⟨hip, hfd⟩ := hp
@@ -591,9 +645,10 @@ theorem ifdLoop_nested {F : Bytes} {exl lim : Nat} {W : Tag → Prop} (w : World
         have hgen := readIfdHeader_gen (F := F) tb t.childIfd (resetPosition r1) x3 e3 (ptrCount F t) (extent F)
           (fun x => x ∈ (resetPosition r1).tags) hc2 he2 hpos2 (by rw [hQ2, ← hdrop]; exact inv.lay) (fun x hx => hx)
           (fun l hl hm => w.cap l hl (fun x hx => by
-            rcases hm x hx with ho | hc
+            rcases hm x hx with ho | hc | hc
             · exact hOldW x ho
-            · rw [hpo2, hpo1] at hc; exact w.child t htW hip x hc))
+            · rw [hpo2, hpo1] at hc; exact w.child t htW hip x hc
+            · exact absurd hc.1.symm (childType_ne_ifd0 t hip)))
           (by rw [hpo2, hpo1, hx2, hl2]; exact hfd.dirOK (extent F) (extent_value F))
           (fun x hx => ⟨w.extent_pos x (hOldW x hx), fun c hc => by
             rw [hpo2, hpo1] at hc
@@ -601,8 +656,15 @@ theorem ifdLoop_nested {F : Bytes} {exl lim : Nat} {W : Tag → Prop} (w : World
             obtain ⟨k, _, hce, _⟩ := hc
             have hci := entry_ifd _ _ _ _ hce
             exact w.disj c x hcW (hOldW x hx) (fun heq => hfresh2 x hx (by rw [← heq]; exact hci))⟩)
+          (fun h0 => absurd h0.symm (childType_ne_ifd0 t hip))
           hh3
-        obtain ⟨hc3, he3, hpo3, hpos3, hexl3, hlim3, hlay3, hmem3, hsub3, hpar3, hprov3, _, hins3⟩ := hgen
+        obtain ⟨hc3, he3, hpo3, hpos3, hexl3, hlim3, hlay3, hmem3', hsub3, hpar3, hprov3, _, hins3⟩ := hgen
+        have hmem3 : ∀ x ∈ x3.tags, x ∈ (resetPosition r1).tags ∨ IsEntry F t.childIfd (resetPosition r1).po (ptrCount F t) x := by
+          intro x hx
+          rcases hmem3' x hx with a | a | a
+          · exact Or.inl a
+          · exact Or.inr a
+          · exact absurd a.1.symm (childType_ne_ifd0 t hip)
         rw [hpo2, hpo1] at hpo3 hmem3 hprov3 hins3
         have hext : extent F t = 2 + 12 * ptrCount F t + 4 := extent_ptr F t hip.1
         -- t is still the head of the pending list
@@ -707,13 +769,73 @@ theorem ifdLoop_nested {F : Bytes} {exl lim : Nat} {W : Tag → Prop} (w : World
           · rcases hprov3 x h1' with h | h
             · exact Or.inl (by rw [← hparR]; exact h)
             · exact Or.inr (Or.inr ⟨t, by rw [hdrop]; simp, hip, h⟩)
-          · rcases hmemtl x h2' with h | h
-            · exact Or.inr (Or.inl (by rw [hdrop]; exact List.mem_cons_of_mem _ h))
+          · rcases hmemtl x h2'.1 with h | h
+            · exact Or.inr (Or.inl ⟨by rw [hdrop]; exact List.mem_cons_of_mem _ h, h2'.2⟩)
             · obtain ⟨k, hk, e, _⟩ := h
               exact Or.inr (Or.inr ⟨t, by rw [hdrop]; simp, hip, ⟨k, hk, e⟩⟩)
           · rcases hmemtl p hp with h | h
             · exact Or.inr (Or.inr ⟨p, by rw [hdrop]; exact List.mem_cons_of_mem _ h, hipp, ha⟩)
             · exact absurd hipp.1 (hchildD p h).2
+      · -- the IFD1 pointer queued by readNextIfdTag: the loop only seeks to it
+        obtain ⟨his, hsF, hsX⟩ := hs
+        rw [if_pos his.1] at h
+        have hk : ((t.off : Int) - r.po) = ((t.off - r.po : Nat) : Int) := by omega
+        rw [hk] at h
+        have hde := discard_exact inv.coh (t.off - r.po) (by omega) (by rw [inv.exl]; omega)
+        have hcd := inv.coh.discard ((t.off - r.po : Nat) : Int)
+        have hkd := Keep.discard r ((t.off - r.po : Nat) : Int)
+        generalize hdd : Exif.discard r ((t.off - r.po : Nat) : Int) = pr at h hde hcd hkd
+        obtain ⟨r1, e1⟩ := pr
+        dsimp only at h hde hcd hkd
+        have hpo1 : r1.po = t.off := by rw [hde.2]; omega
+        obtain ⟨r3, h3, h⟩ := bind_ok h
+        obtain ⟨hq2, hpos2, hrest2, hpo2, hexl2, hbuf2, hrd2⟩ := reset_queue r1
+        have hQ2 : (resetPosition r1).tags = t :: r.tags.drop (r.pos + 1) := by rw [hq2, hkd.tags, hkd.pos, hdrop]
+        have hc2 : Coh F (resetPosition r1) := ⟨by rw [hrest2, hpo2]; exact hcd.rest, by rw [hpo2]; exact hcd.le, hcd.small⟩
+        have he2 : Exact tb ex0 F (resetPosition r1) :=
+          inv.exact.transfer (hrd2.trans hkd.reads) ((reset_keep r1).1.trans hkd.ex) ((reset_keep r1).2.trans hkd.parsed)
+        have hl2 : readLimit (resetPosition r1) = lim := by unfold readLimit; rw [hbuf2, hkd.buffered]; exact inv.lim
+        have hx2 : (resetPosition r1).exifLength = exl := by rw [hexl2, hkd.exl]; exact inv.exl
+        unfold Exif.ifdChild at h3
+        rw [if_pos his.2.1, if_neg (by rw [his.2.2]; decide)] at h3
+        simp only [Outcome.ok.injEq] at h3
+        subst h3
+        have hq : ({ resetPosition r1 with pos := (resetPosition r1).pos + 1 } : R).tags.drop
+            ({ resetPosition r1 with pos := (resetPosition r1).pos + 1 } : R).pos = r.tags.drop (r.pos + 1) := by
+          show (resetPosition r1).tags.drop ((resetPosition r1).pos + 1) = _
+          rw [hQ2, hpos2]; rfl
+        have hinv' : NInv tb ex0 F exl lim W { resetPosition r1 with pos := (resetPosition r1).pos + 1 } := by
+          refine ⟨⟨hc2.rest, hc2.le, hc2.small⟩, ⟨he2.reads, he2.ref⟩, hx2, hl2, ?_, ?_, ?_, ?_⟩
+          · rw [hq]; exact hlayQ.2
+          · rw [hq]; intro x hx; exact inv.inW x (by rw [hdrop]; exact List.mem_cons_of_mem _ hx)
+          · rw [hq]; intro x hx
+            have := hlayQ.1 x hx
+            show (resetPosition r1).po ≤ x.off
+            rw [hpo2, hpo1]; omega
+          · rw [hq]; intro p hp hip x hx
+            exact inv.fresh p (by rw [hdrop]; exact List.mem_cons_of_mem _ hp) hip x (by rw [hdrop]; exact List.mem_cons_of_mem _ hx)
+        obtain ⟨c', e', l1, l2, l3, l4⟩ := ih { resetPosition r1 with pos := (resetPosition r1).pos + 1 } r' hinv' h
+        rw [hq] at l2 l3 l4
+        have hparR : (resetPosition r1).parsed = r.parsed := (reset_keep r1).2.trans hkd.parsed
+        have l1' : ∀ x ∈ (resetPosition r1).parsed, x ∈ r'.parsed := l1
+        refine ⟨c', e', fun x hx => l1' x (by rw [hparR]; exact hx), ?_, ?_, ?_⟩
+        · intro x hx hxt
+          rw [hdrop, List.mem_cons] at hx
+          rcases hx with rfl | hx
+          · exact absurd his.1 hxt
+          · exact l2 x hx hxt
+        · intro p hp hipp c hc
+          rw [hdrop, List.mem_cons] at hp
+          rcases hp with rfl | hp
+          · exfalso
+            have := his.2.2
+            rcases hipp.2.2 with h' | h' <;> omega
+          · exact l3 p hp hipp c hc
+        · intro x hx
+          rcases l4 x hx with h1' | h2' | ⟨p, hp, hipp, ha⟩
+          · exact Or.inl (by rw [← hparR]; exact h1')
+          · exact Or.inr (Or.inl ⟨by rw [hdrop]; exact List.mem_cons_of_mem _ h2'.1, h2'.2⟩)
+          · exact Or.inr (Or.inr ⟨p, by rw [hdrop]; exact List.mem_cons_of_mem _ hp, hipp, ha⟩)
     · rename_i hge
       simp only [Outcome.ok.injEq] at h; rw [← h]
       have hnil : r.tags.drop r.pos = [] := List.drop_eq_nil_of_le (by omega)
@@ -735,7 +857,7 @@ theorem readIfd_nested {F : Bytes} {W : Tag → Prop} (tb : Tables) (fuel : Nat)
     (w : World F r.exifLength (readLimit r) W)
     (hc : Coh F r) (he : Exact tb ex0 F r) (htags : r.tags = []) (hpos : r.pos = 0)
     (hroot : DirOK F ifd r.po cnt r.exifLength (readLimit r) (extent F))
-    (hrootW : ∀ x, IsEntry F ifd r.po cnt x → W x)
+    (hrootW : ∀ x, IsEntry F ifd r.po cnt x ∨ IsStubEntry F ifd r.po cnt x → W x)
     (h : readIfd tb fuel r ifd = .ok (r', e)) : Coh F r' ∧ Exact tb ex0 F r' ∧ Complete F ifd r.po cnt r.parsed r'.parsed := by
   unfold Exif.readIfd at h
   obtain ⟨p, hp, h⟩ := bind_ok h
@@ -743,26 +865,40 @@ theorem readIfd_nested {F : Bytes} {W : Tag → Prop} (tb : Tables) (fuel : Nat)
   have hgen := readIfdHeader_gen (F := F) tb ifd r r1 e1 cnt (extent F) (fun _ => False) hc he hpos
     (by rw [htags]; unfold LayS; simp) (by rw [htags]; intro x hx; cases hx)
     (fun l hl hm => w.cap l hl (fun x hx => by rcases hm x hx with ho | hc'; exact absurd ho id; exact hrootW x hc'))
-    hroot (fun x hx => absurd hx id) hp
+    hroot (fun x hx => absurd hx id) (fun _ _ hx => hx) hp
   obtain ⟨hc1, he1, hpo1, hpos1, hexl1, hlim1, hlay1, hmem1, _, hpar1, hprov1, hnone, hins1⟩ := hgen
   dsimp only at h
   subst hnone
   dsimp only at h
   obtain ⟨r2, h2, h⟩ := bind_ok h
   simp only [Outcome.ok.injEq, Prod.mk.injEq] at h; rw [← h.1]
-  have hent : ∀ x ∈ r1.tags, IsEntry F ifd r.po cnt x := by
+  have hent : ∀ x ∈ r1.tags, IsEntry F ifd r.po cnt x ∨ IsStubEntry F ifd r.po cnt x := by
     intro x hx; rcases hmem1 x hx with ho | hc'; exact absurd ho id; exact hc'
   have hq : r1.tags.drop r1.pos = r1.tags := by rw [hpos1]; rfl
   have hinv : NInv tb ex0 F r.exifLength (readLimit r) W r1 := by
     refine ⟨hc1, he1, hexl1, hlim1, by rw [hq]; exact hlay1, by rw [hq]; exact fun x hx => hrootW x (hent x hx), ?_, ?_⟩
     · rw [hq]; intro x hx
-      obtain ⟨k, hk, hke, hko⟩ := hent x hx
-      have := (hroot.good k x hk hke).2 hko
-      omega
+      rcases hent x hx with ⟨k, hk, hke, hko⟩ | ⟨h0, nx, hnz, hu, rfl⟩
+      · have := (hroot.good k x hk hke).2 hko
+        omega
+      · obtain ⟨nx', hu', hcase⟩ := hroot.next h0
+        rw [hu] at hu'
+        simp only [Outcome.ok.injEq] at hu'
+        subst hu'
+        rcases hcase with h00 | h00
+        · exact absurd h00 hnz
+        · show r1.po ≤ nx
+          omega
     · rw [hq]; intro p hp hip x hx
-      obtain ⟨k, _, hke, _⟩ := hent x hx
-      obtain ⟨k', _, hke', _⟩ := hent p hp
-      rw [entry_ifd _ _ _ _ hke, ← entry_ifd _ _ _ _ hke', hip.2.1]
+      have hpi : p.ifd = ifd.typ := by
+        rcases hent p hp with ⟨k', _, hke', _⟩ | ⟨h0, nx, _, _, rfl⟩
+        · exact entry_ifd _ _ _ _ hke'
+        · exact h0.symm
+      have hxi : x.ifd = ifd.typ := by
+        rcases hent x hx with ⟨k, _, hke, _⟩ | ⟨h0, nx, _, _, rfl⟩
+        · exact entry_ifd _ _ _ _ hke
+        · exact h0.symm
+      rw [hxi, ← hpi, hip.2.1]
       exact childType_ne_ifd0 p hip
   obtain ⟨c', e', l1, l2, l3, l4⟩ := ifdLoop_nested w tb fuel r1 r2 hinv h2
   rw [hq] at l2 l3 l4
@@ -773,9 +909,17 @@ theorem readIfd_nested {F : Bytes} {W : Tag → Prop} (tb : Tables) (fuel : Nat)
   · rcases hprov1 x h1' with h | h
     · exact Or.inl h
     · exact Or.inr (Or.inl h)
-  · obtain ⟨k, hk, e, _⟩ := hent x h2'
-    exact Or.inr (Or.inl ⟨k, hk, e⟩)
-  · exact Or.inr (Or.inr ⟨p, hent p hp, hip, ha⟩)
+  · rcases hent x h2'.1 with ⟨k, hk, e, _⟩ | ⟨_, nx, _, _, rfl⟩
+    · exact Or.inr (Or.inl ⟨k, hk, e⟩)
+    · exact absurd rfl h2'.2
+  · rcases hent p hp with hpe | ⟨_, nx, _, _, rfl⟩
+    · exact Or.inr (Or.inr ⟨p, hpe, hip, ha⟩)
+    · exfalso
+      rcases hip.2.2 with h' | h'
+      · have : (0x014a : Nat) = 0x8825 := h'
+        omega
+      · have : (0x014a : Nat) = 0x8769 := h'
+        omega
 
 /-- **A TIFF with IFD0, Exif and GPS directories in a forward layout is read exactly** (DecodeTiff on the whole file F) -/
 theorem decodeTiff_nested (tb : Tables) (F : Bytes) (buffered : Bool) (h : Hdr) (cnt : Nat) (r' : R) (e : Option ErrKind)
@@ -783,7 +927,8 @@ theorem decodeTiff_nested (tb : Tables) (F : Bytes) (buffered : Bool) (h : Hdr) 
     (w : World F (4 * 1024 * 1024) (if buffered then bufioSize else scratchSize) W)
     (hroot : DirOK F { off := 0, base := 0, order := h.order, typ := h.firstIfdType, idx := 0 } h.firstIfd cnt (4 * 1024 * 1024)
       (if buffered then bufioSize else scratchSize) (extent F))
-    (hrootW : ∀ x, IsEntry F { off := 0, base := 0, order := h.order, typ := h.firstIfdType, idx := 0 } h.firstIfd cnt x → W x)
+    (hrootW : ∀ x, IsEntry F { off := 0, base := 0, order := h.order, typ := h.firstIfdType, idx := 0 } h.firstIfd cnt x ∨
+      IsStubEntry F { off := 0, base := 0, order := h.order, typ := h.firstIfdType, idx := 0 } h.firstIfd cnt x → W x)
     (hres : decodeTiff tb F buffered h = .ok (r', e)) : Coh F r' ∧ Exact tb { imageType := h.imageType } F r' ∧
       Complete F { off := 0, base := 0, order := h.order, typ := h.firstIfdType, idx := 0 } h.firstIfd cnt [] r'.parsed := by
   unfold Exif.decodeTiff at hres
@@ -818,7 +963,8 @@ theorem decodeJPEGIfd_nested (tb : Tables) (F : Bytes) (buffered : Bool) (h : Hd
     (w : World F h.exifLength (if buffered then bufioSize else scratchSize) W)
     (hroot : DirOK F { off := 0, base := 0, order := h.order, typ := h.firstIfdType, idx := 0 } h.firstIfd cnt h.exifLength
       (if buffered then bufioSize else scratchSize) (extent F))
-    (hrootW : ∀ x, IsEntry F { off := 0, base := 0, order := h.order, typ := h.firstIfdType, idx := 0 } h.firstIfd cnt x → W x)
+    (hrootW : ∀ x, IsEntry F { off := 0, base := 0, order := h.order, typ := h.firstIfdType, idx := 0 } h.firstIfd cnt x ∨
+      IsStubEntry F { off := 0, base := 0, order := h.order, typ := h.firstIfdType, idx := 0 } h.firstIfd cnt x → W x)
     (hres : decodeJPEGIfd tb F buffered h = .ok (r', e)) : Coh F r' ∧ Exact tb { imageType := h.imageType } F r' := by
   unfold Exif.decodeJPEGIfd at hres
   dsimp only at hres
@@ -853,7 +999,8 @@ theorem decodeIfd_nested (tb : Tables) (F rest : Bytes) (buffered : Bool) (h : H
     (w : World F h.exifLength (if buffered then bufioSize else scratchSize) W)
     (hroot : DirOK F { off := 0, base := 0, order := h.order, typ := h.firstIfdType, idx := 0 } h.firstIfd cnt h.exifLength
       (if buffered then bufioSize else scratchSize) (extent F))
-    (hrootW : ∀ x, IsEntry F { off := 0, base := 0, order := h.order, typ := h.firstIfdType, idx := 0 } h.firstIfd cnt x → W x)
+    (hrootW : ∀ x, IsEntry F { off := 0, base := 0, order := h.order, typ := h.firstIfdType, idx := 0 } h.firstIfd cnt x ∨
+      IsStubEntry F { off := 0, base := 0, order := h.order, typ := h.firstIfdType, idx := 0 } h.firstIfd cnt x → W x)
     (hres : decodeIfd tb rest buffered h = .ok (r', e)) : Coh F r' ∧ Exact tb { imageType := h.imageType } F r' := by
   unfold Exif.decodeIfd at hres
   dsimp only at hres
